@@ -94,7 +94,7 @@ FAULTS_BY_KIND = {
     "newAccount": ["ok:no_location"], "newOrder": ["ok:no_location"],
     "authz": ["obj:status=invalid", "obj:status=deactivated", "obj:status=expired", "obj:status=revoked", "obj:status=weird"],
     "order": ["obj:status=invalid", "obj:status=processing", "obj:nocert", "obj:status=weird"],
-    "cert": ["ok:nonpem", "ok:truncated", "ok:emptybody", "ok:blankbody", "ok:pem_then_garbage", "ok:other_key"],
+    "cert": ["ok:nonpem", "ok:truncated", "ok:emptybody", "ok:blankbody", "ok:pem_then_garbage", "ok:other_key", "ok:issuer_first", "ok:other_then_leaf"],
     "directory": ["ok:malformed_json", "ok:missing_fields"],
     "newNonce": ["ok:no_nonce", "ok:bad_nonce_header"],
 }
